@@ -257,8 +257,9 @@ theorem C16_liveness_documented (i : LiveIn) (h : 0 < (lifecycle i).deletes) :
   rw [← hl, ← hr]
   exact C16_liveness i h
 
-/-- at most one Delete per timeout, two per pass -/
-theorem C16_liveness_at_most_two (i : LiveIn) : (lifecycle i).deletes ≤ 2 := by
+/-- at most one Delete per pass (the launch-timeout branch returns after its Delete; before the repair recorded in
+    known_findings.json a claim whose launch failed and that was reconciled after BOTH timeouts was deleted twice) -/
+theorem C16_liveness_at_most_one (i : LiveIn) : (lifecycle i).deletes ≤ 1 := by
   unfold lifecycle
   split
   · simp
@@ -288,6 +289,22 @@ theorem C16_liveness_read_guard (i : LiveIn) (hp : i.pool ≠ .none)
     have := timeoutBranch_continue i (initState i) hcont
     omega
   have hs : (initState i).dels = 0 := rfl
+  have hlp : ∀ (l : Tri) (lAt : Int), (launchPart i l lAt (initState i)).2.dels = 0 := by
+    intro l lAt
+    unfold launchPart
+    by_cases hl : (l != Tri.true_) = true
+    · by_cases hto : i.now - lAt < launchTimeout
+      · simp [hl, hto, hs]
+      · simp only [hl, hto, if_true, if_false]
+        rcases hb : timeoutBranch i (initState i) with ⟨r, s⟩
+        rw [hb] at hg hc
+        simp only at hg hc
+        cases r with
+        | stop e => simp only; omega
+        | «continue» => exact absurd rfl hc
+    · simp [hl, hs]
+  have hps := launchPart_spec i (launchStep i).1 (launchStep i).2.1 (initState i)
+  have h0 := hlp (launchStep i).1 (launchStep i).2.1
   unfold lifecycle
   split
   · rfl
@@ -297,22 +314,21 @@ theorem C16_liveness_read_guard (i : LiveIn) (hp : i.pool ≠ .none)
       unfold liveness
       split
       · exact hs
-      · split
-        · split
-          · exact hs
-          · rcases hb : timeoutBranch i (initState i) with ⟨r, s⟩
-            rw [hb] at hg hc
-            simp only at hg hc
-            cases r with
-            | stop e => simp only; omega
-            | «continue» => exact absurd rfl hc
-        · simp only
+      · rcases hb : launchPart i (launchStep i).1 (launchStep i).2.1 (initState i) with ⟨r, s⟩
+        rw [hb] at h0 hps
+        simp only at h0 hps
+        cases r with
+        | stop e => simp only; exact h0
+        | «continue» =>
+          have hse : s = initState i := hps.2.2.1 rfl
+          subst hse
+          simp only
           split
           · exact hs
-          · rcases hb : timeoutBranch i (initState i) with ⟨r, s⟩
-            rw [hb] at hg hc
+          · rcases hb2 : timeoutBranch i (initState i) with ⟨r2, s2⟩
+            rw [hb2] at hg hc
             simp only at hg hc
-            cases r with
+            cases r2 with
             | stop e => simp only; omega
             | «continue» => exact absurd rfl hc
 
@@ -448,7 +464,8 @@ def liveWitness (now : Int) : LiveIn :=
 
 example : (lifecycle (liveWitness 299999999999)).deletes = 0 := by decide
 example : (lifecycle (liveWitness 300000000000)).deletes = 1 := by decide
-example : (lifecycle (liveWitness 900000000000)).deletes = 2 := by decide
+-- both timeouts passed: ONE Delete (the launch-timeout branch returns; before the repair this was 2)
+example : (lifecycle (liveWitness 900000000000)).deletes = 1 := by decide
 example : (lifecycle { liveWitness 900000000000 with getFaults := [.err] }).deletes = 0 := by decide
 example : (lifecycle { liveWitness 900000000000 with launched := .true_, createOk := true }).deletes = 1 := by decide
 
